@@ -455,7 +455,13 @@ bool StepExtended(ScriptExecutionEnvironment& env, CScript::const_iterator& pc, 
             CScriptNum num1(vch1, env.fRequireMinimal, 5);
             CScriptNum num2(vch2, env.fRequireMinimal, 5);
             switch (env.opcode) {
-            case OP_MUL: num1 = num1 * num2; break;
+            case OP_MUL:
+                {
+                    int64_t product;
+                    if (__builtin_mul_overflow(num1.GetInt64(), num2.GetInt64(), &product)) return set_error(serror, SCRIPT_ERR_UNKNOWN_ERROR);
+                    num1 = CScriptNum(product);
+                }
+                break;
             case OP_DIV:
                 if (num2 == 0) return set_error(serror, SCRIPT_ERR_UNKNOWN_ERROR);
                 num1 = num1 / num2;
@@ -465,8 +471,13 @@ bool StepExtended(ScriptExecutionEnvironment& env, CScript::const_iterator& pc, 
                 num1 = num1 % num2;
                 break;
             case OP_LSHIFT:
-                if (num2 < 0 || num2 > 63) return set_error(serror, SCRIPT_ERR_UNKNOWN_ERROR);
-                num1 = num1 << num2;
+                if (num2 < 0 || num2 > 62) return set_error(serror, SCRIPT_ERR_UNKNOWN_ERROR);
+                {
+                    // a * 2^b, as long as it fits
+                    int64_t shifted;
+                    if (__builtin_mul_overflow(num1.GetInt64(), int64_t{1} << num2.GetInt64(), &shifted)) return set_error(serror, SCRIPT_ERR_UNKNOWN_ERROR);
+                    num1 = CScriptNum(shifted);
+                }
                 break;
             case OP_RSHIFT:
                 if (num2 < 0 || num2 > 63) return set_error(serror, SCRIPT_ERR_UNKNOWN_ERROR);
